@@ -20,6 +20,17 @@ static int tok;
 static int nofail;
 static int mapget;              /* positional get also over Table / Tree bases (open finding: it is a key lookup there) */
 static int getwhile;            /* get(view, 0) is called inside the loop body of the forward iteration (open finding: one cursor) */
+/* element types whose size is not a multiple of the pointer size (12 and 3 bytes), readable as integers: Arrays of them have
+   slots wider than the type, which every stepping function has to respect - forwards and backwards */
+struct Odd12v { int32_t v; int32_t pad[2]; };
+struct Odd3v { int8_t v; char pad[2]; };
+static int64_t Odd12v_C_Int(var self) { return ((struct Odd12v*)self)->v; }
+static int64_t Odd3v_C_Int(var self) { return ((struct Odd3v*)self)->v; }
+static int Odd12v_Show(var self, var out, int pos) { return print_to(out, pos, "%li", $I(((struct Odd12v*)self)->v)); }
+static int Odd3v_Show(var self, var out, int pos) { return print_to(out, pos, "%li", $I(((struct Odd3v*)self)->v)); }
+static var Odd12v = Cello(Odd12v, Instance(C_Int, Odd12v_C_Int), Instance(Show, Odd12v_Show, NULL));
+static var Odd3v = Cello(Odd3v, Instance(C_Int, Odd3v_C_Int), Instance(Show, Odd3v_Show, NULL));
+static int has_odd_base;        /* such an Array somewhere below: membership probes (Ints) are of another type */
 static int has_map_base;        /* a Table / Tree somewhere below: get() takes keys there, not positions */
 static var P0, P1, P2, P3, P4, P5, F0, F1, F2;           /* predicate / map Function objects */
 static var pred_even(var x) { return c_int(x) % 2 == 0 ? x : NULL; }
@@ -61,6 +72,20 @@ static var build(void) {
      and at the end, then removed again): iteration must not depend on how the container got its contents */
   int hist = (k == 'a' || k == 'l' || k == 'u' || k == 'b' || k == 'r');
   if (hist) k = (char)(k - 'a' + 'A');
+  if ((k == 'O' || k == 'P') && unit != 1) k = 'A';          /* (small element types cannot hold scaled values) */
+  if (k == 'O' || k == 'P') {
+    int n = (int)hc_int(tok + 1);
+    var c = k == 'O' ? (var)new(Array, Odd12v) : (var)new(Array, Odd3v);
+    volatile var hold = c; (void)hold;
+    for (int i = 0; i < n; i++) {
+      int64_t v = hc_int(tok + 2 + i);
+      if (k == 'O') push(c, $(Odd12v, (int32_t)v, {0x5a5a5a5a, 0x5a5a5a5a})); else push(c, $(Odd3v, (int8_t)v, {0x5a, 0x5a}));
+    }
+    has_odd_base = 1;
+    ev_s("[\"seq\",["); for (int i = 0; i < n; i++) { if (i) ev_s(","); ev_i(hc_int(tok + 2 + i)); } ev_s("],\"A\"]");
+    tok += 2 + n;
+    return c;
+  }
   if (k == 'A' || k == 'L' || k == 'U' || k == 'B' || k == 'R') {
     int n = (int)hc_int(tok + 1);
     var c = k == 'A' ? (var)new(Array, Int) : k == 'L' ? (var)new(List, Int) : k == 'U' ? (var)new(Tuple) :
@@ -166,7 +191,7 @@ int main(int argc, char** argv) {
     if (!hc_is(0, "view")) { fprintf(stderr, "unknown op %s\n", hc_w[0]); return 9; }
     ev_begin("view");
     ev_key("expr");
-    tok = 1; has_map_base = 0; unit = 1;
+    tok = 1; has_map_base = 0; has_odd_base = 0; unit = 1;
     if (hc_w[1][0] == '@') { unit = strtoll(hc_w[1] + 1, NULL, 10); tok = 2; if (unit == 0) unit = 1; }
     volatile var v = NULL;
     const char* bexc = "";
@@ -223,7 +248,7 @@ int main(int argc, char** argv) {
     { static const int64_t probes[] = { 0, 1, 2, 3, 4, 5, 6, 7, 9, 10, 12, 16, 18, 101, 104, 106 };   /* non-negative: a Range reads a negative key as a position from its end */
       int istup = (type_of(v) == Zip); { var t = v; while (type_of(t) == Map || type_of(t) == Filter || type_of(t) == Slice) { t = type_of(t) == Slice ? ((struct Slice*)t)->iter : type_of(t) == Map ? ((struct Map*)t)->iter : ((struct Filter*)t)->iter; if (type_of(t) == Zip) istup = 1; } }
       ev_key("mems"); ev_s("[");
-      if (!istup && !has_map_base && implements_method(v, Get, mem)) {
+      if (!istup && !has_map_base && !has_odd_base && implements_method(v, Get, mem)) {
         for (size_t i = 0; i < sizeof probes / sizeof probes[0]; i++) {
           volatile int r = -1; try { r = mem(v, $I(probes[i] * unit)) ? 1 : 0; } catch (e) { r = -2; }
           if (i) ev_s(","); ev_s("["); ev_i(probes[i]); ev_s(","); ev_i(r); ev_s("]");
